@@ -40,7 +40,7 @@ def main():
             s = vf.tlc("SymlinkResolve", sc, workers=4, collect=False, timeout=300)
             if s.violated != inv:
                 raise vf.NotAVerdict("sanity invariant %s not violated: vacuous model" % inv)
-        cfgs = ["SymlinkResolve-n3.cfg", "SymlinkResolve-n4rel.cfg"] + (["SymlinkResolve-n4.cfg", "SymlinkResolve-n4all.cfg", "SymlinkResolve-n5.cfg"] if ck.thorough() else [])
+        cfgs = ["SymlinkResolve-n3.cfg", "SymlinkResolve-n4rel.cfg"] + (["SymlinkResolve-n4.cfg", "SymlinkResolve-n4all.cfg", "SymlinkResolve-n5rel.cfg"] if ck.thorough() else [])
         cases = []
         for c in cfgs:
             r = vf.require_ok(vf.tlc("SymlinkResolve", c, timeout=2400), c)
